@@ -85,6 +85,8 @@ pub struct World {
     pub fx: Fixed,
     pub st: MState,
     pub ever: BTreeMap<String, BTreeSet<Vec<u8>>>,
+    /// some earlier call of this history (scripted or with injected faults) met a failure that a reply caught
+    pub caught_before: bool,
     next_tag: u32,
 }
 
@@ -146,7 +148,7 @@ impl World {
         });
         let b = app.block_info();
         st.block = (b.height, b.time.nanos(), b.chain_id);
-        let mut w = World { prefix, app, fx: Fixed { codes: BTreeMap::new(), users, fresh, nowhere, validators, unbonding_time: setup.unbonding_time, addr_pool: setup.addr_pool, api: setup.api }, st, ever: BTreeMap::new(), next_tag: 0 };
+        let mut w = World { prefix, app, fx: Fixed { codes: BTreeMap::new(), users, fresh, nowhere, validators, unbonding_time: setup.unbonding_time, addr_pool: setup.addr_pool, api: setup.api }, st, ever: BTreeMap::new(), caught_before: false, next_tag: 0 };
         for c in &setup.codes {
             let _ = w.store(c);
         }
@@ -513,7 +515,8 @@ impl World {
             }
         }
         let act = Actual { ok: act_ok, panic: panic.clone(), responses: act_resps, trace };
-        let pred = Pred { funded_fail_before: std::mem::take(&mut it.funded_fail_before), last_fail: it.last_fail.clone(), ever_written: it.ever_written.clone(), fail_before: std::mem::take(&mut it.fail_before), ok: pred_res.is_ok(), responses: pred_resps, trace: std::mem::take(&mut it.trace), whys: std::mem::take(&mut it.whys), failures: it.failures, caught: it.caught, sites: it.sites.clone() };
+        let pred = Pred { funded_fail_before: std::mem::take(&mut it.funded_fail_before), last_fail: it.last_fail.clone(), ever_written: it.ever_written.clone(), fail_before: std::mem::take(&mut it.fail_before), ok: pred_res.is_ok(), responses: pred_resps, trace: std::mem::take(&mut it.trace), whys: std::mem::take(&mut it.whys), failures: it.failures, caught: it.caught, sites: it.sites.clone(), caught_in_earlier_call: self.caught_before };
+        self.caught_before |= pred.caught > 0;
         let _ = helper_note;
 
         // ---- model-free: all-or-nothing
